@@ -154,6 +154,8 @@ def mux_generate(tier, wd, rng, cfgs):
         stats.append({"cfg": cfg, "states": r["states"], "distinct": r["distinct"], "depth": r["depth"],
                       "cases": len(r["cases"]), "actions": r["actions"], "wall": round(r["wall"], 1)})
         for a in ("IStart", "IAddTrack", "IWriteSample", "IRejectWrite", "IWriteEnd"):
+            if a == "IRejectWrite" and "MaxRejects = 0" in open(os.path.join(SPEC, cfg + ".cfg")).read():
+                continue
             if r["actions"].get(a, 0) == 0:
                 raise ToolError("vacuity: action %s never taken in %s" % (a, cfg))
         cases.append((cfg, r["cases"]))
@@ -241,3 +243,214 @@ def c01(prop, tier, replay):
 @check("C02")
 def c02(prop, tier, replay):
     mux_family(prop, tier, replay, {"C02"})
+
+
+# ----------------------------------------------------------------------------------------
+# C13: 32 -> 64 bit transitions.  Leg A at scaled width (one byte per "32-bit" field), the model's
+# histories are then mapped to the real width (128 -> 2^31, 255 -> 2^32-1, ...) and replayed.
+
+def payload_bytes(case):
+    return sum(c["len"] for c in case["calls"] if c["op"] == "write" and c.get("valid", True))
+
+
+@check("C13")
+def c13(prop, tier, replay):
+    t0 = time.time()
+    rng = random.Random(seed())
+    wd = workdir(prop + "-" + tier)
+    known = load_known()
+    if replay:
+        cases = [json.load(open(replay))]
+        res = validate_sharded("Trace_Mux", cases, wd, "replay", 1)
+        report_mux(prop, tier, {"C01", "C02", "C13", "C14"}, res, cases, [], t0, known, "model_checking", [])
+        return
+    if tier == "quick":
+        cfgs = ["MC_MuxImpl_wdur", "MC_MuxImpl_wlen", "MC_MuxImpl_wpos215", "MC_MuxImpl_wpos216", "MC_MuxImpl_wpos250"]
+    else:
+        cfgs = ["MC_MuxImpl_wdur4", "MC_MuxImpl_wdurc", "MC_MuxImpl_wlen4", "MC_MuxImpl_wpos200", "MC_MuxImpl_wpos215",
+                "MC_MuxImpl_wpos216", "MC_MuxImpl_wpos250"]
+    stats, gen = mux_generate(tier, wd, rng, cfgs)
+    cheap, heavy = [], []
+    for cfg, mcs in gen:
+        sp = {"wpos200": 200, "wpos215": 215, "wpos216": 216, "wpos250": 250}.get(cfg.replace("MC_MuxImpl_", ""), 0)
+        for i, mc in enumerate(mcs):
+            c = model_case_to_harness(mc, i, rng, 3, sp, scale=True, name=cfg.replace("MC_MuxImpl_", "w"))
+            (heavy if payload_bytes(c) > (64 << 20) else cheap).append(c)
+    lim = 500 if tier == "quick" else 6000
+    if len(cheap) > lim:
+        cheap = [cheap[i] for i in sorted(rng.sample(range(len(cheap)), lim))]
+    # payload crossings cost ~2 GiB of memcpy per sample: a few, run one at a time
+    def crossing(c):
+        p = payload_bytes(c) + 16
+        return abs(p - (1 << 32)) <= 64
+    # one case per distinct payload sum next to the 2^32 boundary of the mdat size (payload + 16):
+    # quick takes the sums just below and exactly at the limit, thorough all of them and more
+    bysum = {}
+    for c in sorted(heavy, key=lambda c: len(c["calls"])):
+        bysum.setdefault(payload_bytes(c) + 16 - (1 << 32), c)
+    near = sorted([d for d in bysum if abs(d) <= 64], key=lambda d: (abs(d + 0.5), d))
+    nheavy = 2 if tier == "quick" else 24
+    pick = [bysum[d] for d in near[:nheavy]]
+    rest = [bysum[d] for d in sorted(bysum, key=abs) if abs(d) > 64]
+    pick += rest[:max(0, nheavy - len(pick))]
+    log("[heavy payload sums relative to 2^32: %s]" % [payload_bytes(c) + 16 - (1 << 32) for c in pick])
+    res = validate_sharded("Trace_Mux", cheap, wd, "wide", 6 if tier == "quick" else 14)
+    res2 = validate_sharded("Trace_Mux", pick, wd, "heavy", 1, profile="release", timeout=3000)
+    for k in ("fails",):
+        res[k] += res2[k]
+    for k in ("events", "runs", "states"):
+        res[k] += res2[k]
+    report_mux(prop, tier, {"C01", "C02", "C13", "C14"}, res, cheap + pick, stats, t0, known, "model_checking", cfgs)
+
+
+# ----------------------------------------------------------------------------------------
+# C14: configuration domains (enumerated), judged by Codec.tla on the trace
+
+AOTS = [x for x in range(1, 47) if x not in (10, 11, 18, 31)]
+
+
+def cfg_case(idx, confs, rng, movie_ts=1000, brands=None, major="isom", minor=512, nsamples=2):
+    calls = [{"op": "add", "conf": c} for c in confs]
+    for t in range(1, len(confs) + 1):
+        tts = frombig(confs[t - 1]["timescale"])
+        for k in range(nsamples):
+            calls.append({"op": "write", "t": t, "len": rng.choice([0, 3, 9]), "fill": rng.randrange(1 << 24),
+                          "dur": big(rng.choice([1, tts, tts // 3 + 1, 1000])), "cts": 0, "sync": k == 0, "valid": True})
+    return {"id": "cfg-%d" % idx, "seed": idx,
+            "cfg": {"major": s4(major), "minor": big(minor), "brands": [s4(b) for b in (brands if brands is not None else ["isom"])],
+                    "timescale": big(movie_ts)},
+            "pos": [], "calls": calls}
+
+
+def c14_cases(tier, rng):
+    cases = []
+    n = 0
+    # all audio object types x frequency indices x channel layouts
+    combos = [(a, f, c) for a in AOTS for f in range(13) for c in range(1, 8)]
+    if tier == "quick":
+        # every object type, every frequency index, every channel layout at least once + a seeded sample
+        base = [(a, rng.randrange(13), rng.randrange(1, 8)) for a in AOTS] + [(2, f, 2) for f in range(13)] + [(2, 3, c) for c in range(1, 8)]
+        combos = base + rng.sample(combos, 150)
+    for (a, f, c) in combos:
+        conf = full_conf("aac", rng.choice([44100, 48000, 1000]), rng)
+        conf.update({"profile": a, "freq": f, "chan": c, "bitrate": big(rng.choice([0, 1, 128000, 0xFFFFFFFF]))})
+        cases.append(cfg_case(n, [conf], rng)); n += 1
+    dims = [0, 1, 320, 32767, 32768, 65535]
+    for kind in ("avc", "hevc", "vp9"):
+        for w in dims:
+            for h in dims:
+                conf = full_conf(kind, 90000, rng)
+                conf["w"], conf["h"] = w, h
+                cases.append(cfg_case(n, [conf], rng)); n += 1
+    letters = "abcdefghijklmnopqrstuvwxyz"
+    langs = ["aaa", "zzz", "und", "eng", "azz", "zaa", "mzm", "pqr", "xyz"] + ["".join(rng.choice(letters) for _ in range(3)) for _ in range(40 if tier == "quick" else 400)]
+    for i, lg in enumerate(langs):
+        conf = full_conf(KINDS[i % 5], 1000, rng, lang=lg)
+        cases.append(cfg_case(n, [conf], rng)); n += 1
+    for spsn in (4, 5, 64, 255):
+        for ppsn in (1, 4, 64):
+            conf = full_conf("avc", 600, rng)
+            conf["sps"] = [0x67] + [(37 * i + 11) % 256 for i in range(spsn - 1)]
+            conf["pps"] = [(91 * i + 5) % 256 for i in range(ppsn)]
+            cases.append(cfg_case(n, [conf], rng)); n += 1
+    for brands in ([], ["isom"], ["isom", "iso2"], ["isom", "iso2", "avc1"], ["\x00\x00\x00\x00", "zzzz", "mp41", "dash"]):
+        for minor in (0, 512, 0xFFFFFFFF):
+            for mts in (1, 1000, 90000, 0xFFFFFFFF):
+                conf = full_conf(rng.choice(KINDS), rng.choice([1, 1000, 90000, 0xFFFFFFFF]), rng)
+                cases.append(cfg_case(n, [conf, full_conf("aac", 48000, rng)], rng, movie_ts=mts, brands=brands,
+                                      major=rng.choice(["isom", "mp42", "\x7f\x7f\x7f\x7f"]), minor=minor)); n += 1
+    return cases
+
+
+@check("C14")
+def c14(prop, tier, replay):
+    t0 = time.time()
+    rng = random.Random(seed())
+    mux_family(prop, tier, replay, {"C14"}, extra_cases=c14_cases(tier, rng),
+               replay_limit=200 if tier == "quick" else 5000, nrandom=100 if tier == "quick" else 3000)
+
+
+# ----------------------------------------------------------------------------------------
+# C17: the whole value range of every public configuration / sample field
+
+def c17_cases(tier, rng):
+    cases = []
+    n = [0]
+
+    def add(confs, writes, movie_ts=1000, tag="deg"):
+        calls = [{"op": "add", "conf": c} for c in confs] + writes
+        cases.append({"id": "%s-%d" % (tag, n[0]), "seed": n[0],
+                      "cfg": {"major": s4("isom"), "minor": big(0), "brands": [], "timescale": big(movie_ts)},
+                      "pos": [], "calls": calls})
+        n[0] += 1
+
+    def w(t, ln=3, dur=1, cts=0, sync=True, valid=True):
+        return {"op": "write", "t": t, "len": ln, "fill": rng.randrange(1 << 24), "dur": big(dur), "cts": cts,
+                "sync": sync, "valid": valid}
+
+    U = 0xFFFFFFFF
+    # timescales (track and movie) over the whole range, incl. zero
+    for tts in (0, 1, 2, U - 1, U):
+        for mts in (0, 1, U):
+            for kind in KINDS:
+                c = full_conf(kind, tts, rng)
+                add([c], [w(1, dur=d) for d in rng.sample([0, 1, tts // 2, tts, U], 3)], movie_ts=mts)
+    # parameter sets of every short length
+    for sl in range(0, 7):
+        for pl in (0, 1, 4):
+            c = full_conf("avc", 1000, rng)
+            c["sps"] = [0x67, 100, 0, 31, 0xAC, 0xD9][:sl]
+            c["pps"] = [0x68, 0xEB, 0xE3, 0xCB][:pl]
+            add([c], [w(1), w(1, ln=0)])
+    # languages: empty, short, long, non-letters, non-ASCII
+    for lg in ("", "e", "en", "engl", "ENG", "123", "\x00\x00\x00", "eé", "日本語", "~~~", "   "):
+        c = full_conf(rng.choice(KINDS), 1000, rng)
+        c["lang"] = list(lg.encode("utf-8"))
+        add([c], [w(1)])
+    # maximal durations / rendering offsets, duration sums that cross every limit
+    for kind in KINDS:
+        for durs in ([U], [U, U], [U, 1], [U, U, U, 2], [1 << 31, 1 << 31], [0, 0, 0]):
+            for tts in (1, 1000, U):
+                add([full_conf(kind, tts, rng)], [w(1, dur=d, cts=rng.choice([0, 2147483647, -2147483648])) for d in durs],
+                    movie_ts=rng.choice([1, 1000, U]))
+    # unknown track ids, no tracks, samples before any track
+    add([], [])
+    add([], [w(0, valid=False), w(1, valid=False), w(U, valid=False)])
+    add([full_conf("aac", 48000, rng)], [w(0, valid=False), w(2, valid=False), w(U, valid=False), w(1), w(U, valid=False)])
+    # a track that never receives a sample next to one that does
+    add([full_conf("avc", 1000, rng), full_conf("aac", 1000, rng)], [w(2), w(2)])
+    add([full_conf(k, 1000, rng) for k in KINDS], [])
+    # dimensions
+    for kind in ("avc", "hevc", "vp9"):
+        c = full_conf(kind, 1000, rng)
+        c["w"], c["h"] = 65535, 65535
+        add([c], [w(1)])
+    # very large samples: 16 MiB - 1, 16 MiB, 16 MiB + 1 on every kind (24-bit bufferSizeDB on AAC)
+    big_lens = [(1 << 24) - 1, 1 << 24, (1 << 24) + 1]
+    for kind in (KINDS if tier == "thorough" else ["aac", "avc"]):
+        for ln in (big_lens if tier == "thorough" else big_lens[1:2]):
+            add([full_conf(kind, 1000, rng)], [w(1, ln=ln), w(1, ln=1)], tag="big")
+    return cases
+
+
+@check("C17")
+def c17(prop, tier, replay):
+    t0 = time.time()
+    rng = random.Random(seed())
+    wd = workdir(prop + "-" + tier)
+    known = load_known()
+    tags = {"C17", "C01", "C02"}
+    if replay:
+        cases = [json.load(open(replay))]
+        res = validate_sharded("Trace_Mux", cases, wd, "replay", 1)
+        report_mux(prop, tier, tags, res, cases, [], t0, known, "model_checking", [])
+        return
+    stats, gen = mux_generate(tier, wd, rng, ["MC_MuxImpl_q"])
+    cases = c17_cases(tier, rng)
+    # both arithmetic profiles: overflow checks on (dev) and off (release)
+    res = validate_sharded("Trace_Mux", cases, wd, "deg-debug", 6 if tier == "quick" else 12, profile="debug")
+    res2 = validate_sharded("Trace_Mux", cases, wd, "deg-release", 6 if tier == "quick" else 12, profile="release")
+    res["fails"] += res2["fails"]
+    for k in ("events", "runs", "states"):
+        res[k] += res2[k]
+    report_mux(prop, tier, tags, res, cases, stats, t0, known, "model_checking", ["MC_MuxImpl_q"])
